@@ -4,7 +4,7 @@
 use binrw::{BinReaderExt, BinResult, binread};
 use half::f16;
 use std::ffi::CString;
-use std::io::SeekFrom;
+use std::io::{Read, SeekFrom};
 
 pub(crate) fn read_bool_from<T: std::convert::From<u8> + std::cmp::PartialEq>(x: T) -> bool {
     x == T::from(1u8)
@@ -18,6 +18,27 @@ pub(crate) fn read_string(byte_stream: Vec<u8>) -> String {
     // untrusted input: invalid UTF-8 is decoded lossily instead of panicking
     let str = String::from_utf8_lossy(&byte_stream);
     str.trim_matches(char::from(0)).to_string() // trim \0 from the end of strings
+}
+
+/// Reads exactly `count` bytes without reserving `count` bytes up front: `count` comes from
+/// the (untrusted) file, `#[br(count = ..)]` on a `Vec<u8>` would allocate it before reading.
+#[binrw::parser(reader)]
+pub(crate) fn read_bytes_bounded(count: u64) -> BinResult<Vec<u8>> {
+    let mut data = Vec::new();
+    std::io::Read::take(&mut *reader, count).read_to_end(&mut data)?;
+    if data.len() as u64 != count {
+        return Err(binrw::Error::Io(std::io::Error::new(
+            std::io::ErrorKind::UnexpectedEof,
+            "not enough bytes in reader",
+        )));
+    }
+    Ok(data)
+}
+
+/// `read_string` over `read_bytes_bounded`, for strings whose length is read from the file.
+#[binrw::parser(reader, endian)]
+pub(crate) fn read_string_bounded(count: u64) -> BinResult<String> {
+    Ok(read_string(read_bytes_bounded(reader, endian, (count,))?))
 }
 
 pub(crate) fn write_string(str: &String) -> Vec<u8> {
